@@ -252,11 +252,29 @@ type vrtRemLen interface {
 	RemainingLength() int32
 }
 
+// vrtFrameAnyVarint: remaining length and header size, accepting non-minimal encodings of up to 4 bytes.
+func vrtFrameAnyVarint(buf []byte) (remlen, hdr int, ok bool) {
+	mult := 1
+	for i := 1; i <= 4; i++ {
+		if i >= len(buf) {
+			return 0, 0, false
+		}
+		d := buf[i]
+		remlen += int(d&0x7f) * mult
+		mult *= 128
+		if d&0x80 == 0 {
+			return remlen, i + 1, true
+		}
+	}
+	return 0, 0, false
+}
+
 func vrtReencode(typ byte, bound string, def int) {
 	buf := vrtBytes("in", vrtBound(bound, def))
 	vrtAssume(len(buf) >= 2)
 	vrtAssume(buf[0]>>4 == typ)
-	_, _, remlen, hdr, fok := specFrame(buf)
+	// the frame as any decoder reads it: a remaining length of 1..4 bytes, minimal or padded (0x84 0x00 for 4)
+	remlen, hdr, fok := vrtFrameAnyVarint(buf)
 	vrtAssume(fok)
 	vrtAssume(hdr+remlen == len(buf))
 	m := vrtNewOf(typ)
@@ -276,6 +294,9 @@ func vrtReencode(typ byte, bound string, def int) {
 	vrtAssert("C03.reencode_size", n2 == n)
 	vrtAssert("C03.reencode_bytes", vrtBytesEq(out[:n2], buf))
 	vrtObserve("re", n2, out[:n2])
+	if _, _, _, _, minimal := specFrame(buf); !minimal {
+		return // (a padded remaining length cannot be reproduced from the fields)
+	}
 	p, _, ok := specDecode(buf)
 	if !ok {
 		return
